@@ -461,7 +461,23 @@ theorem inv_finishLoop (cfg : Cfg) (isRead : Bool) (s0 : St) (l : Loop) (h0 : In
     rw [h2]; exact List.Nodup.sublist (List.take_sublist _ _) hnd
   unfold finishLoop
   split
-  · -- a member failed: the struct is re-synchronised with the partial result
+  · split
+    rotate_left
+    · -- write_<struct>, the first member refused: nothing happened
+      rename_i hre
+      have hnil : l.result = [] := by
+        simp only [resyncs, Bool.or_eq_true, Bool.not_eq_true', not_or] at hre
+        exact List.isEmpty_iff.1 (by simpa using hre.2)
+      refine ⟨?_, fun k hk => ?_⟩
+      · show wf cfg l.st.struct = true
+        rw [h1]; exact h0.1
+      · obtain ⟨y, hy1, hy2⟩ := h0.2 k hk
+        refine ⟨y, ?_, ?_⟩
+        · show l.st.struct.lookup k = some y
+          rw [h1]; exact hy1
+        · show l.st.mem.lookup k = some y
+          rw [h4 k, hnil]; exact hy2
+    -- a member failed: the struct is re-synchronised with the partial result
     have key : Inv cfg (assignStruct cfg (Dict.merge l.st.struct l.result) l.st) := by
       apply inv_assignStruct
       · rw [wf_iff, h1]
@@ -499,6 +515,40 @@ theorem inv_finishLoop (cfg : Cfg) (isRead : Bool) (s0 : St) (l : Loop) (h0 : In
     obtain ⟨y, hy1, _⟩ := h0.2 k hk
     rw [hR] at hy1
     exact ⟨y, hy1, by rw [h4 k, hy1]⟩
+
+/-- once the loop has stopped the remaining members are not treated -/
+theorem writeIter_foldl_stopped (cfg : Cfg) (v : Dict) (w : String → WRes Val) (l : Loop) (h : l.stop = true) :
+    ∀ ms : List String, ms.foldl (writeIter cfg v w) l = l := by
+  intro ms
+  induction ms with
+  | nil => rfl
+  | cons m ms ih => simp only [List.foldl_cons]; rw [show writeIter cfg v w l m = l by simp [writeIter, h]]; exact ih
+
+/-- the generated `write_<struct>` (repaired code) whose FIRST member refuses (`write_<m>` raises): the operation fails with
+that exception and the state is the one before - nothing stored, nothing announced, no pending flag touched -/
+theorem writeStructB_first_refused (cfg : Cfg) (m : String) (ms : List String) (hm : cfg.members = m :: ms) (v : Dict)
+    (w : String → WRes Val) (k : ExcKind) (s : St) (hv : wf cfg v = true) (hw : cfg.hasW m = true) (hf : w m = .fail k) :
+    writeStructB cfg v w s = failedExc (some k) s := by
+  have hl : v.lookup m = none → False := by
+    intro hn
+    have hk := (wf_iff cfg v).1 hv
+    rw [hm] at hk
+    cases v with
+    | nil => simp at hk
+    | cons e t =>
+      simp only [List.map_cons, List.cons.injEq] at hk
+      obtain ⟨e1, e2⟩ := e
+      simp only at hk
+      simp [List.lookup, hk.1] at hn
+  have h1 : writeIter cfg v w { st := s } m = { st := s, stop := true, exc := some k } := by
+    unfold writeIter
+    cases hx : v.lookup m with
+    | none => exact absurd hx (fun h => hl h)
+    | some req => simp [hw, hf]
+  unfold writeStructB
+  simp only [hv, Bool.not_true, Bool.false_eq_true, if_false, hm, List.foldl_cons]
+  rw [h1, writeIter_foldl_stopped cfg v w _ rfl]
+  simp [finishLoop, resyncs, hm]
 
 theorem inv_readStructB (cfg : Cfg) (r : String → RRes Val) (s : St) (h : Inv cfg s) (hnd : cfg.members.Nodup) :
     Inv cfg (readStructB cfg r s) := by
@@ -818,7 +868,16 @@ theorem inv_finishLoopO (cfg : Cfg) (isRead : Bool) (ov : Overlap) (l : Loop) (h
   have hL2 : Loose cfg (interrupt cfg ov.afterRead (interrupt cfg ov.atEnd l.st)) l.result := loose_interrupt cfg _ _ _ hL1
   simp only [finishLoopO]
   split
-  · -- a member failed: the struct is re-synchronised with the partial result, merged into the value read before
+  · split
+    rotate_left
+    · -- write_<struct>, the first member refused: nothing but what the other threads did
+      rename_i hre
+      have hnil : l.result = [] := by
+        simp only [resyncs, Bool.or_eq_true, Bool.not_eq_true', not_or] at hre
+        exact List.isEmpty_iff.1 (by simpa using hre.2)
+      exact inv_congr cfg (by simp [failedExc]) (by simp [failedExc])
+        (agree_of_loose cfg _ l.result hL2 (fun k x hr => by rw [hnil] at hr; simp [List.lookup] at hr))
+    -- a member failed: the struct is re-synchronised with the partial result, merged into the value read before
     have hwf : wf cfg (Dict.merge (interrupt cfg ov.atEnd l.st).struct l.result) = true := by
       rw [wf_iff, keys_merge]
       · exact (wf_iff cfg _).1 hL1.1
